@@ -9,6 +9,9 @@ package cmd
 //@   assigns nothing
 //@   modifies pbsrc, pbok, osReadOKs
 //@   ensures[C06] osReadOKs <= old(osReadOKs) + 1
+// ... and the only files ever read are the two documented side files of the image: "<image minus .fd>_scrtm_ver.pb"
+// (first ".fd" replaced) and "<image>.scrtm.pb" - the name the endorse command itself writes next to the image.
+//@   atcall ReadFile requires[C06] p0 == strReplace(path, ".fd", "_scrtm_ver.pb", 1) || p0 == path + ".scrtm.pb"
 //@   loop 1 invariant[C06] osReadOKs == old(osReadOKs)
 //@   ghostset scrtmOK = result0
 //@   ghostset scrtmVer = result1
